@@ -106,6 +106,7 @@ class C10(Check):
         "measures); <prefix><tag>; <chr>_unloc_1..m; H_1..H_n non-increasing; output order rank/natural with unlocs after their chromosome; CSV "
         "one line per rank-1/2 scaffold, localised=no iff unloc; homologues share the number. ChrNamerError/TaggingError = did not complete. "
         "non-trivial = case with >=2 painted scaffolds or an Unloc/Haplotig piece"
+        " Unloc numbering by size is asserted too (finding D10 classified exactly); chromosomes with internal gaps (size = bases in fragments); haplotig / unloc cut out of a forward or reverse contig; sub-texel contig family where a tagged piece may end with no rows (numbering over what is written, no holes)."
     )
     assumptions = [
         "pieces are whole input scaffolds at bpt 1 (no placement tolerance); a separate small family cuts one scaffold into main + Unloc",
